@@ -69,8 +69,10 @@ Definition binop_text (o : binop) : bytes :=
   | BOr => "||" | BAnd => "&&" | BEq => "==" | BNe => "!=" | BLt => "<" | BGt => ">" | BLe => "<="
   | BGe => ">=" | BIn => " in " | BAdd => "+" | BSub => "-" | BMul => "*" | BDiv => "/"
   end.
-(* a line feed inside a STRING token is handed to the evaluator as the escape backslash-n *)
-Definition escape_lf (t : bytes) : bytes := flat_map (fun c => if beqb c x0a then [x5c; x6e] else [c]) t.
+(* a line feed / carriage return inside a STRING token is handed to the evaluator as the escape
+   backslash-n / backslash-r *)
+Definition escape_lf (t : bytes) : bytes :=
+  flat_map (fun c => if beqb c x0a then [x5c; x6e] else if beqb c x0d then [x5c; x72] else [c]) t.
 Definition value_text (v : value) : bytes := match v with VStr t => escape_lf t | VNum t => t end.
 
 Fixpoint sep_pieces (sep : bytes) (l : list (list bytes)) : list bytes :=
